@@ -222,9 +222,19 @@ def fix_unconventional_class_definitions(source: str) -> str:
 
     {{ClassName}}.{{attr}} = {{value}}
     """
-    template = core.compile_template(template)
-    template[0].bases = list
-    template[0].decorator_list = list
+    # Compiled templates are cached, so the class definition that accepts any bases and
+    # decorators is built from the compiled one rather than by modifying it.
+    classdef_template, *assign_templates = core.compile_template(template)
+    template = [
+        ast.ClassDef(
+            name=classdef_template.name,
+            bases=list,
+            keywords=classdef_template.keywords,
+            body=classdef_template.body,
+            decorator_list=list,
+        ),
+        *assign_templates,
+    ]
 
     transaction = 0
     root = core.parse(source)
